@@ -405,8 +405,8 @@ def run(prop, tier):
     if viol:
         res.add_violation(viol["what"], viol)
     elif not tie["ok"] and not mism:
-        res.add_violation("translation tie broken: %s -- the statement itself held on all %d real runs" % (tie["detail"][:700], len(cases)),
-                          {"no_longer_checks": "TieReader.v tie_reader_params (constructor arithmetic of the reader stack)", "tie_detail": tie["detail"]}, no_input=True)
+        res.tie_undischarged("translation tie broken: %s -- the correspondence agrees and the statement held on all %d real runs" % (tie["detail"][:700], len(cases)),
+                             {"no_longer_checks": "TieReader.v (constructor arithmetic, layers and overlap generator of the reader stack)", "tie_detail": tie["detail"]})
     elif mism:
         m, i, o = mism[0]
         res.add_violation("model and implementation differ on %r (impl %r, model %r); the statement's own oracle found no failing input" % (m, i, o),
